@@ -105,6 +105,9 @@ type Exec struct {
 	// far; Tainted stops read comparison after a delete failed part-way.
 	DeleteTags string
 	Tainted    bool
+	// delEnds[c][b]: an earlier successful delete of data channel c ended at b, so c's kept
+	// domain may start at b although b is no sample (R7 precondition, second form)
+	delEnds map[uint32]map[int64]bool
 	// DeletesRefusedVacuous counts index deletes the engine refused although no dependant
 	// holds a sample in the range, where the request itself covered no sample either.
 	DeletesRefusedVacuous int
@@ -438,7 +441,7 @@ func (e *Exec) doDelete(i int, op Op) bool {
 			}
 			// R7: the range ends one nanosecond after a dependant's sample and not on an
 			// index sample (the start of a rollover domain of that dependant)
-			if e.Model.Has(c.Key, op.B-1) && !e.Model.Has(k, op.B) {
+			if (e.Model.Has(c.Key, op.B-1) || e.delEnds[c.Key][op.B]) && !e.Model.Has(k, op.B) {
 				tag += "r7pre,"
 			}
 		}
@@ -493,6 +496,15 @@ func (e *Exec) doDelete(i int, op Op) bool {
 		return false
 	}
 	for _, k := range op.Chans {
+		if !e.specs[k].IsIndex {
+			if e.delEnds == nil {
+				e.delEnds = map[uint32]map[int64]bool{}
+			}
+			if e.delEnds[k] == nil {
+				e.delEnds[k] = map[int64]bool{}
+			}
+			e.delEnds[k][op.B] = true
+		}
 		e.DeletedSamples += e.Model.Delete(k, op.A, op.B)
 		e.Durable.Delete(k, op.A, op.B)
 		for v, st := range e.Ever[k] {
